@@ -20,6 +20,7 @@ Inductive dop :=
 | DMode (ok : bool)            (* gate: following exports return nil / an error *)
 | DBlock                       (* gate: following exports block inside ExportSpans *)
 | DUnblock                     (* gate: release the blocked export (returns nil); mode ok *)
+| DFlushF                      (* as DFlushT, issued when the queue is full: the marker cannot be queued *)
 | DWait.                       (* (short BatchTimeout) wait until the timer has exported what is batched *)
 
 Definition mu_free (s : state) : bool := match mu s with None => true | Some _ => false end.
@@ -129,6 +130,7 @@ Definition exec_op (c : config) (t : nat) (o : dop) (ms : emode * state) : optio
   | DFlush => keep (call c m false false t OpFlush s)
   | DFlushX => keep (call c m false true t OpFlush s)
   | DFlushT => keep (call c m true false t OpFlush s)
+  | DFlushF => keep (call c m true false t OpFlush s)
   | DShutdown => keep (call c m false false t OpShutdown s)
   | DShutdownX => keep (call c m true false t OpShutdown s)
   | DMode ok => Some (if ok then MOk else MErr, s)
@@ -212,6 +214,29 @@ Definition spec_ok' (dobs : bool) (c : config) (h : history) : bool :=
   else no_dup_ok h && batch_bound_ok c h && exclusive_ok h && provenance_ok c h &&
        flush_vis_ok h && sd_drains_ok h && quiet_ok h.
 
+(** ** ForceFlush whose marker is known to be queued.
+    [DFlushT] is issued with room in the queue and a context that ends only at the select AFTER the
+    marker was sent; the two excuses for a nil return without visibility (a Shutdown invoked before,
+    F-C01-1b; the marker never queued because the context ended first) are excluded by construction, so
+    the property's clause applies literally to such a call whatever the state of its context:
+    returned nil => every sampled span ended before the call is exported or dropped-and-counted. *)
+Definition is_call_op (o : dop) : bool :=
+  match o with DMode _ | DBlock | DUnblock | DWait => false | _ => true end.
+Fixpoint marked_flushes (t : nat) (ops : list dop) : list nat :=
+  match ops with
+  | [] => []
+  | o :: r => (match o with DFlushT => [t] | _ => [] end) ++
+              marked_flushes (if is_call_op o then S t else t) r
+  end.
+Definition marked_flush_ok (ops : list dop) (h : history) : bool :=
+  let ts := marked_flushes 0 ops in
+  all_splits (fun pre e _ =>
+    match e with
+    | ERet t OpFlush RNil _ =>
+        negb (existsb (Nat.eqb t) ts) || sd_called pre || visible (ended (before_call t pre)) pre
+    | _ => true
+    end) h.
+
 Inductive case :=
 | CDet (c : config) (dobs : bool) (ops : list dop)
        (rets : list ret) (batches : list (list id * nat)) (nsd : N) (h : history)
@@ -245,7 +270,7 @@ Definition check_case (x : case) : list N :=
       | Some s => flag (obs_match dobs (hist s) rets bs (N.to_nat nsd)) V_MISMATCH ++
                   flag (spec_ok c (hist s)) V_MODELSPEC
       | None => [V_MISMATCH]
-      end ++ judge dobs c h
+      end ++ judge dobs c h ++ flag (marked_flush_ok ops h) V_SPECFAIL
   | CFree c dobs h => judge dobs c h
   | CStorm c ended bs =>
       let ids := flat_map fst bs in
